@@ -20,13 +20,33 @@ def notesOpt (o : String) : Option (Option String) :=
 /-- number of elements the selector picks out of a body with `n` elements of the endpoint's own kind and `d` others -/
 def selectCount (e : Endpoint) (n d : Nat) : Nat := if e.selector = "o" then n + d else n
 
+/-- what Go's `%f` prints for a coordinate given with seven decimals (the ops carry the exact argument; the code
+    formats with `%f`, six decimals — the recorded finding `bbox-six-decimals`; the seventh digit of generated values
+    is never 5, so the rounding is the decimal one) -/
+def sixDec (s : String) : String :=
+  let neg := s.startsWith "-"
+  let body := if neg then (s.drop 1).toString else s
+  match body.splitOn "." with
+  | [ip, fp] =>
+    match ip.toNat?, fp.toNat? with
+    | some i, some f =>
+      if fp.length ≠ 7 then s
+      else
+        let n := i * 10000000 + f
+        let q := (n + 5) / 10
+        let fr := toString (q % 1000000)
+        let pad := String.ofList (List.replicate (6 - fr.length) '0')
+        (if neg then "-" else "") ++ toString (q / 1000000) ++ "." ++ pad ++ fr
+    | _, _ => s
+  | _ => s
+
 def handle (toks : List String) : String :=
   match toks with
   | ["call", name, base, ints, floats, opts, data, query, status, n, d, limiter] =>
     match endpoints.find? (·.name = name), unhex base, (optList ints).mapM (fun (x : String) => x.toInt?),
           unhex data, unhex query, status.toNat?, n.toNat?, d.toNat? with
     | some e, some base, some ints, some data, some query, some status, some n, some d =>
-      let floats := optList floats
+      let floats := (optList floats).map sixDec
       -- parameters
       let ps : Option (List String) :=
         if e.option = "FeatureOption" then (optList opts).mapM featureParam
